@@ -93,16 +93,16 @@ def run_quilt(cs, rng, workdir=None):
                     items.append(P.proj(sf.Series(list(t), index=opp, name=lab)))
             res = {'k': 'items', 'items': items}
         elif op == 'q_iter_window':
-            items = [proj_noname(w) for w in q.iter_window(size=cs['size'], step=cs['step'], axis=cs['q']['axis'])]
+            items = [proj_noname(w) for w in q.iter_window(size=cs['size'], step=cs['step'], axis=cs['q']['axis'], **_wkw(cs))]
             res = {'k': 'items', 'items': items}
         elif op == 'q_iter_window_array':
             wins = []
             if cs['items']:
                 labs = list(q.index if cs['q']['axis'] == 0 else q.columns)
-                for k, a in q.iter_window_array_items(size=cs['size'], step=cs['step'], axis=cs['q']['axis']):
+                for k, a in q.iter_window_array_items(size=cs['size'], step=cs['step'], axis=cs['q']['axis'], **_wkw(cs)):
                     wins.append({'dt': P.enc_dtype(a.dtype), 'rows': [[P.enc(x) for x in row] for row in a], 'label': P.enc(k)})
             else:
-                for a in q.iter_window_array(size=cs['size'], step=cs['step'], axis=cs['q']['axis']):
+                for a in q.iter_window_array(size=cs['size'], step=cs['step'], axis=cs['q']['axis'], **_wkw(cs)):
                     wins.append({'dt': P.enc_dtype(a.dtype), 'rows': [[P.enc(x) for x in row] for row in a], 'label': ['none']})
             if cs['loose']:
                 wins = [{'dt': ['any', 0], 'rows': [[_loose_cell(x) for x in row] for row in w['rows']], 'label': w['label']} for w in wins]
@@ -180,7 +180,7 @@ def gen_quilt_case(rng):
         # array-valued windows over members that are each homogeneous in a dtype of their own (compared by value)
         q = rand_quilt(rng, own_kinds=True)
         n = len(along_labels(q))
-        return {'op': 'q_iter_window_array', 'q': q, 'size': rng.randint(1, max(1, n)), 'step': rng.randint(1, 3), 'items': rng.random() < 0.5, 'loose': True}
+        return dict({'op': 'q_iter_window_array', 'q': q, 'size': rng.randint(1, max(1, n)), 'step': rng.randint(1, 3), 'items': rng.random() < 0.5, 'loose': True}, **_wparams(rng))
     q = rand_quilt(rng)
     along = along_labels(q)
     n = len(along)
@@ -219,9 +219,9 @@ def gen_quilt_case(rng):
         vias = ['series', 'series_items', 'array'] + (['tuple'] if all(l[0] == 's' for l in opp) and one_kind else [])      # namedtuple fields must be identifiers
         return {'op': 'q_iter', 'q': q, 'via': rng.choice(vias)}
     if r < 0.91:
-        return {'op': 'q_iter_window', 'q': q, 'size': rng.randint(1, max(1, n)), 'step': rng.randint(1, 3)}
+        return dict({'op': 'q_iter_window', 'q': q, 'size': rng.randint(1, max(1, n)), 'step': rng.randint(1, 3)}, **_wparams(rng))
     if r < 0.96:
-        return {'op': 'q_iter_window_array', 'q': q, 'size': rng.randint(1, max(1, n)), 'step': rng.randint(1, 3), 'items': rng.random() < 0.5, 'loose': False}
+        return dict({'op': 'q_iter_window_array', 'q': q, 'size': rng.randint(1, max(1, n)), 'step': rng.randint(1, 3), 'items': rng.random() < 0.5, 'loose': False}, **_wparams(rng))
     return {'op': 'q_head', 'q': q, 'count': rng.randint(1, n + 1)}
 
 
@@ -388,6 +388,17 @@ def _proj_any(v):
     if isinstance(v, np.ndarray):
         return {'k': 'array', 'dt': P.enc_dtype(v.dtype), 'shape': list(v.shape), 'vals': P.enc_array(v.reshape(-1))}
     return {'k': 'elem', 'v': P.enc(v)}
+
+
+def _wkw(cs):
+    return {'start_shift': cs['sshift'], 'label_shift': cs['lshift'], 'window_sized': cs['ws']}
+
+
+def _wparams(rng):
+    '''start shift >= 0 (a negative one makes the Quilt select an empty range of members, which raises as built), label shift <= 0, complete or incomplete windows'''
+    if rng.random() < 0.4:
+        return {'sshift': 0, 'lshift': 0, 'ws': True}
+    return {'sshift': rng.choice([0, 0, 1, 2]), 'lshift': rng.choice([0, -1, -1, -2]), 'ws': rng.random() < 0.4}
 
 
 def batch_map_event(rng):
